@@ -1,7 +1,7 @@
 (* C03: syncvar_t variables obey full/empty semantics with a 60-bit payload.  Theorems about Syncvar/Model.v (the
    executable model that the correspondence run compares with src/syncvar.c) and Syncvar/CellSpec.v (the abstract cell). *)
 From Coq Require Import List NArith Bool Permutation.
-From QV Require Import Syncvar.Defs Syncvar.Model Syncvar.CellSpec Syncvar.Proofs.
+From QV Require Import Syncvar.Defs Syncvar.Model Syncvar.CellSpec Syncvar.Proofs Syncvar.Micro.
 Import ListNotations.
 Local Open Scope N_scope.
 
@@ -140,3 +140,33 @@ Theorem incrF_returns_new_value : forall x t inc x' evs,
   hd Fault evs = Ret t RC_SUCCESS (Some (data_of (word x'))) /\ data_of (word x') = wrap60 (data_of (word x) + inc).
 Proof. exact incrF_returns_new_value_l. Qed.
 Print Assumptions incrF_returns_new_value.
+
+(* ---- micro-step layer (Syncvar/Micro.v): the word as a CAS lock, threads = program counters over atomic accesses to the
+   one 64-bit word (load, CAS, store), every schedule = every list of thread ids.  Hardware assumption: atomic CAS, SC. ---- *)
+
+(* the lock bit is set iff exactly one thread is between its successful CAS and its releasing store, that thread sees the
+   word exactly as it locked it (mutex_inv), and no two threads are inside together; any mix of incrF and writeF threads *)
+Theorem lock_bit_mutex : forall w0 progs sched,
+  lk w0 = false ->
+  let s := mrun (minit w0 progs) sched in
+  mutex_inv s /\
+  forall t1 t2 th1 th2, t1 <> t2 -> nth_error (thr s) t1 = Some th1 -> nth_error (thr s) t2 = Some th2 ->
+                        holder th1 = 1 -> holder th2 = 1 -> False.
+Proof. exact lock_bit_mutex_l. Qed.
+Print Assumptions lock_bit_mutex.
+
+(* n threads, one incrF each, under EVERY interleaving of their loads / CAS attempts / stores: no increment is lost
+   (payload = init + sum of the finished calls' increments mod 2^60 at every point, = init + sum of all when all returned),
+   and the values returned are exactly the running sums in lock order: the log holds them in release order, it contains
+   exactly the finished calls with their returned values, each thread at most once *)
+Theorem incrF_atomic_micro : forall w0 incs sched,
+  lk w0 = false -> mdat w0 < two60 ->
+  let s := mrun (minit w0 (map PIncr incs)) sched in
+  mdat (mw s) = wrap60 (mdat w0 + sumf done_inc (thr s)) /\
+  hist_ok (mdat w0) (hist s) /\ mdat (mw s) = last_val (mdat w0) (hist s) /\
+  (forall t th r, nth_error (thr s) t = Some th -> t_pc th = PcDone r -> In (t, inc_of th, r) (hist s)) /\
+  (forall t i r, In (t, i, r) (hist s) -> exists th, nth_error (thr s) t = Some th /\ t_pc th = PcDone r /\ inc_of th = i) /\
+  NoDup (map tid_of (hist s)) /\
+  (all_done s -> mdat (mw s) = wrap60 (mdat w0 + sum_list incs) /\ lk (mw s) = false).
+Proof. exact incrF_atomic_micro_full. Qed.
+Print Assumptions incrF_atomic_micro.
